@@ -62,7 +62,7 @@ def run(rep):
     rep.bounds["enumerated"] = dict(universe=uni, scenarios=len(scen), replayed=len(cases), outside_fragment=len(skipped))
     rep.exhaustive = not quick
     # (I->S)
-    n = 250 if quick else 4000
+    n = 200 if quick else 1500
     rnd = []
     k = 0
     while len(rnd) < n:
